@@ -11,6 +11,10 @@ import PfVerif.Driver.Stoch
 import PfVerif.Driver.BSDual
 import PfVerif.Driver.Heap
 import PfVerif.Driver.Engine
+import PfVerif.Driver.Acquire
+import PfVerif.Driver.Session
+import PfVerif.Driver.BisectF
+import PfVerif.Driver.HedgerPL
 namespace PfVerif.Driver
 open Lean
 
@@ -48,6 +52,10 @@ def dispatch (op : String) (j : Json) : R Json :=
   | "heap" => opHeap j
   | "antithetic" => opAntithetic j
   | "sobol_bm" => opSobolBm j
+  | "bs_module" => opBsModule j
+  | "session" => opSession j
+  | "bisect_fp" => opBisectFp j
+  | "hedger_pl" => opHedgerPl j
   | _ => .error s!"unknown op {op}"
 
 end PfVerif.Driver
